@@ -196,6 +196,12 @@ func run(c Case) (out Outcome) {
 			dispatch.RemoveFace(uint64(i + 1))
 		}
 	}()
+	// face churn: a removed face leaves the dispatch map (what face.Table.Remove does for the
+	// forwarding threads); a packet of a vanishing face is queued after the face has left,
+	// which is the state the thread finds when the face went away while the packet waited
+	faceDown := func(id int) {
+		dispatch.RemoveFace(uint64(id))
+	}
 
 	collect := func() []Emission {
 		var em []Emission
@@ -245,9 +251,26 @@ func run(c Case) (out Outcome) {
 		case "cap":
 			table.SetCsCapacity(op.Cap)
 			m.applyTableOp(op)
+		case "down":
+			if m.FaceIsUp(op.F) {
+				faceDown(op.F)
+				m.FaceDown(op.F)
+			}
+		case "up":
+			fs := FaceSpec{Local: op.Local, Link: op.Link}
+			id := m.FaceUp(fs)
+			ff := &fakeFace{id: uint64(id), spec: fs}
+			faces = append(faces, ff)
+			dispatch.AddFace(uint64(id), ff)
 		case "I":
+			if !m.FaceIsUp(op.F) {
+				continue
+			}
 			wire := interestWire(op)
 			tok, _ := hex.DecodeString(op.Tok)
+			if op.Van {
+				faceDown(op.F)
+			}
 			th.QueueInterest(asPkt(wire, op.F, tok, op.NextHop))
 			synctest.Wait()
 			if op.HasNonce {
@@ -257,14 +280,24 @@ func run(c Case) (out Outcome) {
 			if os.Getenv("VERIF_TRACE") != "" {
 				fmt.Printf("TRACE op #%d %+v -> %s\n", i, op, emString(em))
 			}
-			if v := m.Interest(i, op, wire, em); v != nil {
+			judge := func() *Violation { return m.Interest(i, op, wire, em) }
+			if op.Van {
+				judge = func() *Violation { return m.Vanished(op, em, func() *Violation { return m.Interest(i, op, wire, em) }) }
+			}
+			if v := judge(); v != nil {
 				return fail(i, v)
 			}
 		case "D":
+			if !m.FaceIsUp(op.F) {
+				continue
+			}
 			wire := dataWire(op)
 			tok, ok := m.ResolveToken(op)
 			if !ok {
 				continue // the referenced Interest was never forwarded: nothing to echo
+			}
+			if op.Van {
+				faceDown(op.F)
 			}
 			th.QueueData(asPkt(wire, op.F, tok, 0))
 			synctest.Wait()
@@ -272,7 +305,11 @@ func run(c Case) (out Outcome) {
 			if os.Getenv("VERIF_TRACE") != "" {
 				fmt.Printf("TRACE op #%d %+v tok %x -> %s\n", i, op, tok, emString(em))
 			}
-			if v := m.Data(i, op, wire, tok, em); v != nil {
+			judge := func() *Violation { return m.Data(i, op, wire, tok, em) }
+			if op.Van {
+				judge = func() *Violation { return m.Vanished(op, em, func() *Violation { return m.Data(i, op, wire, tok, em) }) }
+			}
+			if v := judge(); v != nil {
 				return fail(i, v)
 			}
 		}
